@@ -70,10 +70,13 @@ func runScale(c *Case) *Obs {
 		}
 	}()
 	limit := 300 * time.Second
+	if v, ok := c.Cfg["limit_s"]; ok { // scenarios that take milliseconds when all is well
+		limit = time.Duration(num(v)) * time.Second
+	}
 	select {
 	case <-done:
 	case <-time.After(limit):
-		return &Obs{Obs: []any{map[string]any{"ok": false, "msg": "watchdog: the scenario did not finish within 300s (deadlock or spin)", "kind": kind}}}
+		return &Obs{Obs: []any{map[string]any{"ok": false, "msg": fmt.Sprintf("watchdog: the scenario did not finish within %s (deadlock or spin)", limit), "kind": kind}}}
 	}
 	res["kind"] = kind
 	return &Obs{Obs: []any{res}}
